@@ -645,6 +645,7 @@ func runC05(c *Ctx) {
 	ruleCompressibleArg(c, p, "C05.compressible")
 	ruleCompressibleTable(c, p, "C05.compressible-table")
 	ruleValidateBeforeAlloc(c, p, "C05.validate-first")
+	ruleBlockEncodePath(c, p, "C05.block-path")
 
 	// ---- C05.frame
 	ruleFrameLayout(c, p, "C05.frame", rb, wr)
